@@ -260,43 +260,126 @@ theorem mem_groupIdxs (keys : List Str) (k : Str) (p : Nat) :
 theorem nodup_groupIdxs (keys : List Str) (k : Str) : (groupIdxs keys k).Nodup :=
   List.Pairwise.filter _ List.nodup_range
 
-/-- the group of `k` is not a two-element non-enumeration group (those are renamed "by preference") -/
-def noPair (attrs : List Attr) (k : Str) : Bool :=
-  let g := groupIdxs (attrs.map Attr.key) k
-  g.length != 2 || (attrs[g.headD 0]?.map Attr.isEnumeration) == some true
+/-- the re-checked rename "by preference": one of the two positions gets a slug that no other
+position has; everything else is untouched -/
+theorem renameByPreference_spec (cur : List Attr) (i j : Nat) (hi : i < cur.length) (hj : j < cur.length) :
+    ∃ k, (k = i ∨ k = j) ∧ (renameByPreference cur i j).length = cur.length ∧
+      (∀ q, q ≠ k → (renameByPreference cur i j)[q]? = cur[q]?) ∧
+      (∀ q, ¬ Coll (renameByPreference cur i j) k q) := by
+  obtain ⟨a, ha⟩ : ∃ a, cur[i]? = some a := ⟨cur[i], List.getElem?_eq_getElem hi⟩
+  obtain ⟨b, hb⟩ : ∃ b, cur[j]? = some b := ⟨cur[j], List.getElem?_eq_getElem hj⟩
+  obtain ⟨k, n, hk, hpc⟩ : ∃ k n, (k = i ∨ k = j) ∧ preferenceChange cur i j = some (k, n) := by
+    unfold preferenceChange
+    simp only [ha, hb]
+    split
+    · split
+      · exact ⟨j, _, Or.inr rfl, rfl⟩
+      · exact ⟨i, _, Or.inl rfl, rfl⟩
+    · split
+      · exact ⟨j, _, Or.inr rfl, rfl⟩
+      · exact ⟨i, _, Or.inl rfl, rfl⟩
+  obtain ⟨n', hn', hfresh⟩ := uniqueName_fresh n ((cur.eraseIdx k).map Attr.slug)
+  have hout : renameByPreference cur i j = setName cur k n' := by
+    unfold renameByPreference
+    simp [hpc, hn']
+  obtain ⟨c, hc⟩ : ∃ c, cur[k]? = some c := by
+    rcases hk with rfl | rfl
+    · exact ⟨a, ha⟩
+    · exact ⟨b, hb⟩
+  refine ⟨k, hk, by rw [hout, setName_length], ?_, ?_⟩
+  · intro q hq
+    rw [hout, setName_ne cur k q n' hq]
+  · intro q hcoll
+    obtain ⟨hne, x, y, hx, hy, hs⟩ := hcoll
+    rw [hout, setName_eq cur k n' c hc] at hx
+    cases hx
+    rw [hout, setName_ne cur k q n' (fun h => hne h.symm)] at hy
+    have hmem : y ∈ cur.eraseIdx k := List.mem_eraseIdx_iff_getElem?.2 ⟨q, fun h => hne h.symm, hy⟩
+    have : ((cur.eraseIdx k).map Attr.slug).contains (alnum n') = true := by
+      have hs' : alnum n' = y.slug := hs
+      rw [hs']
+      simpa using List.mem_map.2 ⟨y, hmem, rfl⟩
+    rw [hfresh] at this; cases this
 
-/-- no slug occurs exactly twice among non-enumeration attrs -/
-def pairFree (attrs : List Attr) : Bool :=
-  (attrs.map Attr.key).eraseDups.all (noPair attrs)
-
-theorem processGroup_noPair (cur : List Attr) (g : List Nat)
-    (h : g.length ≠ 2 ∨ (cur[g.headD 0]?.map Attr.isEnumeration) = some true) :
-    processGroup cur g = if 2 ≤ g.length then renameByIndex cur g.tail else cur := by
-  match g, h with
-  | [], _ => rfl
-  | [_], _ => rfl
-  | [i, j], h =>
-    have he : (cur[i]?.map Attr.isEnumeration) = some true := by
-      rcases h with h | h
-      · exact absurd rfl h
-      · simpa using h
-    simp [processGroup, he]
-  | _ :: _ :: _ :: _, _ => simp [processGroup]
+/-- what processing one group achieves: a set `T` of its positions is "settled" (no other position
+shares their slug), at most one position of the group is left out, nothing else changes -/
+theorem processGroup_spec (cur : List Attr) (g : List Nat) (hgnd : g.Nodup)
+    (hglt : ∀ p ∈ g, p < cur.length) :
+    ∃ T : List Nat, (processGroup cur g).length = cur.length ∧
+      (∀ q, q ∉ T → (processGroup cur g)[q]? = cur[q]?) ∧
+      (∀ i ∈ T, ∀ q, ¬ Coll (processGroup cur g) i q) ∧ (∀ x ∈ T, x ∈ g) ∧
+      (∀ p q, p ∈ g → q ∈ g → p ∉ T → q ∉ T → p = q) := by
+  match g, hgnd, hglt with
+  | [], _, _ => exact ⟨[], rfl, fun _ _ => rfl, by simp, by simp, by simp⟩
+  | [x], _, _ =>
+    refine ⟨[], rfl, fun _ _ => rfl, by simp, by simp, ?_⟩
+    intro p q hp hq _ _
+    simp at hp hq; rw [hp, hq]
+  | [i, j], hnd, hlt =>
+    have hij : i ≠ j := by
+      intro h; subst h; simp at hnd
+    by_cases he : (cur[i]?.map Attr.isEnumeration) = some false
+    · have hpg : processGroup cur [i, j] = renameByPreference cur i j := by
+        simp [processGroup, he]
+      obtain ⟨k, hk, h1, h2, h3⟩ := renameByPreference_spec cur i j (hlt i (by simp)) (hlt j (by simp))
+      rw [hpg]
+      refine ⟨[k], h1, fun q hq => h2 q (by simpa using hq), ?_, ?_, ?_⟩
+      · intro x hx q; simp at hx; subst hx; exact h3 q
+      · intro x hx; simp at hx; subst hx; rcases hk with rfl | rfl <;> simp
+      · intro p q hp hq hpk hqk
+        simp at hp hq hpk hqk
+        rcases hk with rfl | rfl
+        · rcases hp with rfl | rfl
+          · exact absurd rfl hpk
+          · rcases hq with rfl | rfl
+            · exact absurd rfl hqk
+            · rfl
+        · rcases hp with rfl | rfl
+          · rcases hq with rfl | rfl
+            · rfl
+            · exact absurd rfl hqk
+          · exact absurd rfl hpk
+    · have hpg : processGroup cur [i, j] = renameByIndex cur [j] := by
+        simp [processGroup, he]
+      obtain ⟨s1, s2, s3⟩ := renameByIndex_spec [j] cur (by simp) (fun x hx => hlt x (by simp at hx; simp [hx]))
+      rw [hpg]
+      refine ⟨[j], s1, s2, s3, by simp, ?_⟩
+      intro p q hp hq hpk hqk
+      simp at hp hq hpk hqk
+      rcases hp with rfl | rfl
+      · rcases hq with rfl | rfl
+        · rfl
+        · exact absurd rfl hqk
+      · exact absurd rfl hpk
+  | h :: j :: k :: r, hnd, hlt =>
+    have hpg : processGroup cur (h :: j :: k :: r) = renameByIndex cur (j :: k :: r) := by
+      simp [processGroup]
+    have htnd : (j :: k :: r).Nodup := (List.nodup_cons.1 hnd).2
+    obtain ⟨s1, s2, s3⟩ := renameByIndex_spec (j :: k :: r) cur htnd
+      (fun x hx => hlt x (List.mem_cons_of_mem _ hx))
+    rw [hpg]
+    refine ⟨j :: k :: r, s1, s2, s3, fun x hx => List.mem_cons_of_mem _ hx, ?_⟩
+    intro p q hp hq hpt hqt
+    rcases List.mem_cons.1 hp with rfl | hp
+    · rcases List.mem_cons.1 hq with rfl | hq
+      · rfl
+      · exact absurd hq hqt
+    · exact absurd hp hpt
 
 theorem fold_inv (attrs : List Attr) :
     ∀ (rem : List Str) (cur : List Attr), rem.Nodup → cur.length = attrs.length →
       (∀ (p : Nat) (k : Str), k ∈ rem → (attrs.map Attr.key)[p]? = some k → cur[p]? = attrs[p]?) →
-      (∀ (p q : Nat), Coll cur p q → ∃ k ∈ rem, (attrs.map Attr.key)[p]? = some k ∧ (attrs.map Attr.key)[q]? = some k) →
-      (∀ k ∈ rem, noPair attrs k = true) →
+      (∀ (p q : Nat), Coll cur p q →
+        ∃ k ∈ rem, (attrs.map Attr.key)[p]? = some k ∧ (attrs.map Attr.key)[q]? = some k) →
       ∀ p q, ¬ Coll (rem.foldl (fun cur k => processGroup cur (groupIdxs (attrs.map Attr.key) k)) cur) p q := by
   intro rem
   induction rem with
   | nil =>
-    intro cur _ _ _ hc _ p q hcoll
+    intro cur _ _ _ hc p q hcoll
     obtain ⟨k, hk, _⟩ := hc p q hcoll
     cases hk
   | cons k rest ih =>
-    intro cur hnd hlen hb hc hnp
+    intro cur hnd hlen hb hc
     simp only [List.foldl_cons]
     have hkrest : k ∉ rest := (List.nodup_cons.1 hnd).1
     have hnd' : rest.Nodup := (List.nodup_cons.1 hnd).2
@@ -311,83 +394,30 @@ theorem fold_inv (attrs : List Attr) :
       by_cases hpl : p < (attrs.map Attr.key).length
       · simpa [hlen] using hpl
       · rw [List.getElem?_eq_none (by omega)] at this; cases this
-    -- the enumeration test looks at `cur`, which still equals `attrs` on this group
-    have hcond : g.length ≠ 2 ∨ (cur[g.headD 0]?.map Attr.isEnumeration) = some true := by
-      have := hnp k (by simp)
-      simp only [noPair, ← hg, Bool.or_eq_true, bne_iff_ne, ne_eq, beq_iff_eq] at this
-      rcases this with h | h
-      · exact Or.inl h
-      · by_cases h2 : g.length = 2
-        · right
-          match g, h2 with
-          | [i, j], _ =>
-            have hi : (attrs.map Attr.key)[i]? = some k := (hmem i).1 (by simp)
-            rw [show ([i, j] : List Nat).headD 0 = i from rfl] at h ⊢
-            rw [hb i k (by simp) hi]; exact h
-        · exact Or.inl h2
-    rw [processGroup_noPair cur g hcond]
-    by_cases h2 : 2 ≤ g.length
-    · simp only [h2, if_true]
-      obtain ⟨h, t, hgt⟩ : ∃ h t, g = h :: t := by
-        cases g with
-        | nil => simp at h2
-        | cons h t => exact ⟨h, t, rfl⟩
-      have htnd : t.Nodup := by rw [hgt] at hgnd; exact (List.nodup_cons.1 hgnd).2
-      have hht : h ∉ t := by rw [hgt] at hgnd; exact (List.nodup_cons.1 hgnd).1
-      obtain ⟨s1, s2, s3⟩ := renameByIndex_spec t cur htnd
-        (fun i hi => hglt i (by rw [hgt]; simp [hi]))
-      rw [hgt]; simp only [List.tail_cons]
-      apply ih (renameByIndex cur t) hnd' (by rw [s1, hlen])
-      · intro p k' hk' hp
-        have hpt : p ∉ t := by
-          intro hpt
-          have : (attrs.map Attr.key)[p]? = some k := (hmem p).1 (by rw [hgt]; simp [hpt])
-          rw [hp] at this; cases this; exact hkrest hk'
-        rw [s2 p hpt]
-        exact hb p k' (by simp [hk']) hp
-      · intro p q hcoll
-        by_cases hpt : p ∈ t
-        · exact absurd hcoll (s3 p hpt q)
-        · by_cases hqt : q ∈ t
-          · exact absurd hcoll.symm (s3 q hqt p)
-          · have hcoll' : Coll cur p q := by
-              obtain ⟨hne, a, b, ha, hb', hs⟩ := hcoll
-              rw [s2 p hpt] at ha; rw [s2 q hqt] at hb'
-              exact ⟨hne, a, b, ha, hb', hs⟩
-            obtain ⟨k', hk', hpk, hqk⟩ := hc p q hcoll'
-            rcases List.mem_cons.1 hk' with rfl | hk'
-            · exfalso
-              have hp : p ∈ g := (hmem p).2 hpk
-              have hq : q ∈ g := (hmem q).2 hqk
-              rw [hgt] at hp hq
-              have hp' : p = h := by
-                rcases List.mem_cons.1 hp with h' | h'
-                · exact h'
-                · exact absurd h' hpt
-              have hq' : q = h := by
-                rcases List.mem_cons.1 hq with h' | h'
-                · exact h'
-                · exact absurd h' hqt
-              exact hcoll.1 (hp'.trans hq'.symm)
-            · exact ⟨k', hk', hpk, hqk⟩
-      · intro k' hk'; exact hnp k' (by simp [hk'])
-    · simp only [h2, if_false]
-      apply ih cur hnd' hlen
-      · intro p k' hk' hp; exact hb p k' (by simp [hk']) hp
-      · intro p q hcoll
-        obtain ⟨k', hk', hpk, hqk⟩ := hc p q hcoll
-        rcases List.mem_cons.1 hk' with rfl | hk'
-        · exfalso
-          have hp : p ∈ g := (hmem p).2 hpk
-          have hq : q ∈ g := (hmem q).2 hqk
-          -- two different members: the group has at least two elements
-          match g, hgnd, hp, hq with
-          | [], _, hp, _ => cases hp
-          | [x], _, hp, hq =>
-            simp at hp hq; exact hcoll.1 (hp.trans hq.symm)
-          | _ :: _ :: _, _, _, _ => simp at h2
-        · exact ⟨k', hk', hpk, hqk⟩
-      · intro k' hk'; exact hnp k' (by simp [hk'])
+    obtain ⟨T, s1, s2, s3, hTg, s4⟩ := processGroup_spec cur g hgnd hglt
+    apply ih (processGroup cur g) hnd' (by rw [s1, hlen])
+    · intro p k' hk' hp
+      have hpg : p ∉ g := by
+        intro hpg
+        have := (hmem p).1 hpg
+        rw [hp] at this; cases this; exact hkrest hk'
+      have hpT : p ∉ T := fun h => hpg (hTg p h)
+      rw [s2 p hpT]
+      exact hb p k' (by simp [hk']) hp
+    · intro p q hcoll
+      by_cases hpt : p ∈ T
+      · exact absurd hcoll (s3 p hpt q)
+      · by_cases hqt : q ∈ T
+        · exact absurd hcoll.symm (s3 q hqt p)
+        · have hcoll' : Coll cur p q := by
+            obtain ⟨hne, a, b, ha, hb', hs⟩ := hcoll
+            rw [s2 p hpt] at ha; rw [s2 q hqt] at hb'
+            exact ⟨hne, a, b, ha, hb', hs⟩
+          obtain ⟨k', hk', hpk, hqk⟩ := hc p q hcoll'
+          rcases List.mem_cons.1 hk' with rfl | hk'
+          · exfalso
+            exact hcoll.1 (s4 p q ((hmem p).2 hpk) ((hmem q).2 hqk) hpt hqt)
+          · exact ⟨k', hk', hpk, hqk⟩
 
 theorem no_collision_nodup (cur : List Attr) (h : ∀ p q, ¬ Coll cur p q) :
     (cur.map Attr.slug).Nodup := by
@@ -398,8 +428,8 @@ theorem no_collision_nodup (cur : List Attr) (h : ∀ p q, ¬ Coll cur p q) :
   refine ⟨by omega, cur[i], cur[j], List.getElem?_eq_getElem hi, List.getElem?_eq_getElem hj, ?_⟩
   simpa using heq
 
-theorem rename_pairFree_nodup (attrs : List Attr) (h : pairFree attrs = true) :
-    ((renameDuplicateAttrs attrs).map Attr.slug).Nodup := by
+/-- **after `rename_duplicate_attributes` no two attrs share a slug** — every attr list -/
+theorem rename_nodup (attrs : List Attr) : ((renameDuplicateAttrs attrs).map Attr.slug).Nodup := by
   apply no_collision_nodup
   unfold renameDuplicateAttrs
   simp only []
@@ -413,7 +443,5 @@ theorem rename_pairFree_nodup (attrs : List Attr) (h : pairFree attrs = true) :
       exact List.mem_map.2 ⟨a, List.mem_of_getElem? ha, rfl⟩
     · simp [ha]
     · simp [hb, hk]
-  · intro k hk
-    exact (List.all_eq_true.1 h) k hk
 
 end Proofs.Rename
